@@ -16,13 +16,16 @@ fn main() {
     let mut eng = Engine::new("C17");
     eng.rule(
         "bitmap: a case = (font model: height 1..=32, 256|512 glyphs, glyph bytes from a constant / index / xorshift fill plus byte patches plus an explicit head, \
-         ONE encoding of psf2, raw, dcs, xb, xb2, adf, idf, icy, font slot, compress flag, and a construction route independent of both: create_8 | from_basic | from_bytes(raw) | \
+         ONE encoding of psf2, raw, dcs, xb, xb2, adf, idf, icy, ans, font slot, compress flag, and a construction route independent of both: create_8 | from_basic | from_bytes(raw) | \
          from_bytes(PSF2) | built-in page or SAUCE font with 1..=8 glyphs edited in place through the public glyph map (name kept, checksum not refreshed) | the same and renamed | built-in renamed only); \
-         built-in part = every font page 0..=42 and every SAUCE font name x the same 8 encodings x {as loaded, edited in place, edited and renamed, renamed} (enumerated). \
+         built-in part = every font page 0..=42 and every SAUCE font name x the same 9 encodings x {as loaded, edited in place, edited and renamed, renamed} (enumerated). \
          Targets are also NON-FRESH: a dcs case is a session through one parser and one terminal buffer (0..=5 earlier steps: font sequences into the same or other slots - the identical font, same height other glyphs, \
          other height -, font selection CSI 0;n SP D, RIS, soft reset, text), after EVERY step every slot must hold size, glyph count and glyphs of the LAST font sent into it (resets drop the expectation); \
          document encodings optionally set the fonts over fonts already present in the slots; tdf writer cases optionally overwrite an occupied glyph table, recycle a font object read from a file, \
          or append fonts to a bundle that was written and read back. \
+         Further dimensions independent of the glyphs: the font NAME (any SAUCE font name, any built-in page name, the default name, 'custom font N', empty), the save options of a document \
+         encoding (compress, occupied slots, save_sauce + SAUCE record), the PAGE the font under test sits on (0, 1, 2, 7, 42, 255, 1..=300, all cells on that page; another font - default, 8x8 or \
+         same-size - in slot 0), and a ninth encoding 'ans' (fonts of pages >= 100 travel as CTerm font DCS in an ANSI file). After loading, the font a cell is displayed with is looked up through the cell's font page. \
          The expected glyphs are always what the font object reports (glyphs / get_glyph), never a cached field; a failure on a route other than create_8 is re-tried with a create_8 font \
          of the same glyphs and carries |route=.. in its key only when that passes. Oracle: decoded size, length and the complete glyph table equal the model (missing and invented glyphs both fail); \
          the written bytes are also compared with the format documents (PSF2 header, XBin/ADF/IDF font block, CTerm font DCS). \
